@@ -695,6 +695,23 @@ func (vc *FuncVC) havocDesignators(env *Env, designators []string, callee string
 			st = vc.cur
 			continue
 		}
+		if strings.HasSuffix(d, "[*]") {
+			// every element of the slice's backing array
+			e, err := ParseExpr(strings.TrimSuffix(d, "[*]"))
+			if err != nil {
+				panic(fmt.Errorf("assigns %q: %v", d, err))
+			}
+			sv := vc.eval(env, e)
+			sl, ok := sv.Typ.Underlying().(*types.Slice)
+			if !ok || isStruct(sl.Elem()) {
+				panic(fmt.Errorf("assigns %q: slice of non-struct elements expected", d))
+			}
+			c := vc.elemComp(sl.Elem())
+			_, row := arrayParts(vc.comps[c])
+			arr := T(app("s_arr", sv.T), SInt)
+			st = st.set(c, Store(st.get(c), arr, vc.fresh("hvrow", row)))
+			continue
+		}
 		e, err := ParseExpr(d)
 		if err != nil {
 			panic(fmt.Errorf("assigns %q: %v", d, err))
@@ -1072,6 +1089,17 @@ func (vc *FuncVC) assignedLocs() map[string][]*Loc {
 			vc.assignsOpaque = true
 			continue
 		}
+		if strings.HasSuffix(d, "[*]") {
+			e, err := ParseExpr(strings.TrimSuffix(d, "[*]"))
+			if err != nil {
+				panic(err)
+			}
+			sv := vc.eval(env, e)
+			sl := sv.Typ.Underlying().(*types.Slice)
+			c := vc.elemComp(sl.Elem())
+			allowed[c] = append(allowed[c], &Loc{Comp: c, Ref: T(app("s_arr", sv.T), SInt), Typ: sl.Elem()})
+			continue
+		}
 		e, err := ParseExpr(d)
 		if err != nil {
 			panic(err)
@@ -1358,6 +1386,22 @@ func (vc *FuncVC) designatorComps(con *Contract, sig *types.Signature, c *ssa.Ca
 		}
 		if d == "\\everything" || d == "\\opaque" {
 			all = true
+			continue
+		}
+		if strings.HasSuffix(d, "[*]") {
+			e, err := ParseExpr(strings.TrimSuffix(d, "[*]"))
+			if err != nil {
+				return nil, true
+			}
+			t := typeOf(e)
+			if t == nil {
+				return nil, true
+			}
+			sl, ok := t.Underlying().(*types.Slice)
+			if !ok || isStruct(sl.Elem()) {
+				return nil, true
+			}
+			comps = append(comps, vc.elemComp(sl.Elem()))
 			continue
 		}
 		e, err := ParseExpr(d)
